@@ -113,7 +113,10 @@ class Underlying(abc.ABC):
         if isinstance(self, payoff_underlying_type):
             return lambda times, path, jump_path, payoff_underlying: payoff_underlying
 
-        return self.value
+        # look `value` up at call time: update() may re-bind it after the control variates were initialised
+        return lambda times, path, jump_path, payoff_underlying: self.value(
+            times, path, jump_path, payoff_underlying
+        )
 
     def check_consistency(self, process_dimension: int):
         if (self.underlying_dimension == UnderlyingDimension.MULTIDIMENSIONAL) and (
